@@ -198,6 +198,7 @@ type heapInfo struct {
 
 type ctx struct {
 	cellRootType  map[int]types.Type
+	cellAlloc     map[int]*ssa.Alloc
 	allocated     []term
 	allocFrom     int
 	lastStore     map[string][2]term
@@ -1235,6 +1236,7 @@ func (x *ctx) run(st *state, fr *frame, b *ssa.BasicBlock, idx int, prev *ssa.Ba
 			x.fresh++
 			id := x.fresh
 			x.cellRootType[id] = t
+			x.cellAlloc[id] = in
 			st.cells[id] = x.zeroVal(t)
 			if at, isArr := t.Underlying().(*types.Array); isArr {
 				// arrays (variadic argument packs, literals): a fresh reference with a known length
